@@ -25,7 +25,10 @@ CHECK = 'c07_check'
 SHOW = 'c07_show'
 SHARD = 100
 RULE = ('ctx cases: random structured tables (1x1, rows with no crosses, ...) x {cxt, csv via a real file, json, '
-        'pandas} x 3 back-ends, names from the admissible alphabet (unicode, inner spaces, digits, X, ., quotes) '
+        'pandas} x 3 back-ends, names from the admissible alphabet (unicode, inner spaces, digits, X, ., quotes), duplicate object / attribute '
+        'names (legal: contexts are positional) in every format, histories (context built with other names / '
+        'description / table, used -- json, hash_fixed, lattice, data, derivations -- then updated through each '
+        'public setter, judged against the model of the NEW content) '
         'plus white-space separators (tab, blank: the repaired defect D57) and words with blanks, and a separate '
         'inadmissible stream (newline / separator / empty / leading white space in names, equal words, separator in a word); mv cases: tables mixing IntervalPS, IntervalNumpyPS, SetPS, '
         'AttributePS with point cells, interval cells and empty sets; fc/pc cases: concepts built by from_objects '
@@ -117,9 +120,49 @@ def ctx_fields(K):
     return [list(K.object_names), list(K.attribute_names), K.description, canon(K.data.to_list())]
 
 
+def warm_formal(K, ops):
+    from fcapy.lattice import ConceptLattice
+    for op in ops:
+        if op == 'json':
+            K.write_json()
+        elif op == 'hash':
+            K.hash_fixed()
+        elif op == 'cxt':
+            K.write_cxt()
+        elif op == 'pandas':
+            K.to_pandas()
+        elif op == 'lattice':
+            try:
+                ConceptLattice.from_context(K)
+            except Exception:  # noqa
+                pass
+        elif op == 'derive':
+            K.intention(list(K.object_names)[:1])
+            K.extension(list(K.attribute_names)[:1])
+
+
+def make_formal_hist(case):
+    """The context of the case; with a history: built with the initial names / description, used (so
+    that anything cacheable is cached), then brought to the case's names through the public setters."""
+    init = case.get('init')
+    if not init:
+        return make_formal(case)
+    c0 = dict(case)
+    c0.update(init)
+    K = make_formal(c0)
+    warm_formal(K, case.get('warm', []))
+    if init.get('onames') != case['onames']:
+        K.object_names = list(case['onames'])
+    if init.get('anames') != case['anames']:
+        K.attribute_names = list(case['anames'])
+    if init.get('desc') != case.get('desc'):
+        K.description = case.get('desc')
+    return K
+
+
 def run_ctx(case):
     from fcapy.context import FormalContext
-    K = make_formal(case)
+    K = make_formal_hist(case)
     fmt = case['fmt']
 
     def write():
@@ -274,10 +317,67 @@ def mv_docs(v):
     return v
 
 
+def cell_expected(cell):
+    tag = cell[0]
+    if tag == 'i':
+        return ['i', cell[1] * (GRID // 4), cell[2] * (GRID // 4)]
+    if tag == 'n':
+        return ['i', cell[1] * (GRID // 4), cell[1] * (GRID // 4)]
+    if tag == 's':
+        return ['s', sorted(cell[1])]
+    return ['b', bool(cell[1])]
+
+
+def mv_expected(c):
+    """The many-valued context the case describes, computed from the case alone (never read back from
+    the implementation's object, whose views may be stale)."""
+    return [list(c['onames']), list(c['anames']), c.get('desc'), list(c['ptypes']),
+            [[cell_expected(x) for x in row] for row in c['data']]]
+
+
+def make_mv_hist(case):
+    from fcapy.lattice import ConceptLattice
+    init = case.get('init')
+    if not init:
+        return make_mv(case)
+    c0 = dict(case)
+    c0.update(init)
+    K = make_mv(c0)
+    for op in case.get('warm', []):
+        if op == 'json':
+            K.write_json()
+        elif op == 'hash':
+            K.hash_fixed()
+        elif op == 'data':
+            K.data
+        elif op == 'lattice':
+            try:
+                ConceptLattice.from_context(K)
+            except Exception:  # noqa
+                pass
+        elif op == 'derive':
+            K.extension_i(K.intention_i([0]))
+    if c0['data'] != case['data']:
+        values = [[cell_value(x) for x in row] for row in case['data']]
+        if case.get('via') == 'column':     # correct each changed column in place
+            for j in range(len(case['ptypes'])):
+                if [r[j] for r in c0['data']] != [r[j] for r in case['data']]:
+                    K.pattern_structures[j].data = [row[j] for row in values]
+        else:                               # replace the structures through the setter
+            K.pattern_structures = K.assemble_pattern_structures(values, K.pattern_types)
+    if c0['onames'] != case['onames']:
+        K.object_names = list(case['onames'])
+    if c0.get('desc') != case.get('desc'):
+        K.description = case.get('desc')
+    if c0['anames'] != case['anames']:
+        K.attribute_names = list(case['anames'])
+    return K
+
+
 def run_mv(case):
     from fcapy.mvcontext import MVContext
-    K = make_mv(case)
-    inp = mv_fields(K)
+    K = make_mv_hist(case)
+    inp = mv_expected(case)
     w = guarded(lambda: K.write_json(), 20)
     if w[0] != 'ok':
         return {'in': inp, 'w': ['err', w[1], w[2]], 'r': ['err', 'Other', 'nothing written']}
@@ -583,6 +683,27 @@ def ctx_case(rng, tier, fmt=None, stream=None):
     case['anames'] = names(rng, w, forbid, unique, min_len)
     if fmt == 'json' and rng.random() < 0.6:
         case['desc'] = rng.choice(['', 'a description', 'line1\nline2', 'ünï "quoted" \\ text'])
+    if stream == 'adm' and rng.random() < 0.22:      # duplicate names are legal (contexts are positional)
+        for which in ('onames', 'anames'):
+            l = list(case[which])
+            if len(l) >= 2 and rng.random() < 0.75:
+                for _ in range(rng.randint(1, max(1, len(l) // 2))):
+                    i, j = rng.sample(range(len(l)), 2)
+                    l[j] = l[i]
+                case[which] = l
+        case['stream'] = 'adm-dup'
+    if stream == 'adm' and rng.random() < 0.25:      # history: names / description assigned after use
+        init = {}
+        if rng.random() < 0.6:
+            init['onames'] = names(rng, h, forbid, True, 1)
+        if rng.random() < 0.6:
+            init['anames'] = names(rng, w, forbid, True, 1)
+        if rng.random() < 0.4:
+            init['desc'] = rng.choice([None, 'old description'])
+        if init:
+            case['init'] = init
+            case['warm'] = rng.sample(['json', 'hash', 'cxt', 'pandas', 'lattice', 'derive'], rng.randint(1, 4))
+            case['stream'] = case['stream'] + '-hist'
     if stream == 'inadm' and fmt in ('cxt', 'csv'):
         r = rng.random()
         if fmt == 'csv' and r < 0.45:
@@ -629,6 +750,33 @@ def mv_case(rng, tier):
     c['kind'] = 'mv'
     if rng.random() < 0.5:
         c['desc'] = rng.choice(['', 'many-valued', 'two\nlines'])
+    if rng.random() < 0.45:     # history: the table / names were different while the object was being used
+        other = mv_data(rng, 1, 1)
+        init = {}
+        if rng.random() < 0.8:
+            data = [list(row) for row in c['data']]
+            h, w = len(data), len(data[0])
+            for _ in range(rng.randint(1, 3)):
+                i, j = rng.randrange(h), rng.randrange(w)
+                t = c['ptypes'][j]
+                if t in ('IntervalPS', 'IntervalNumpyPS'):
+                    a = rng.randint(-9, 9)
+                    data[i][j] = ['n', a] if rng.random() < 0.5 else ['i', a, a + rng.randint(0, 3)]
+                elif t == 'SetPS':
+                    data[i][j] = ['s', sorted(rng.sample(range(-2, 5), rng.randint(0, 3)))]
+                else:
+                    data[i][j] = ['b', not data[i][j][1]]
+            init['data'] = data
+        if rng.random() < 0.4:
+            init['onames'] = names(rng, len(c['onames']))
+        if rng.random() < 0.3:
+            init['desc'] = rng.choice([None, 'before'])
+        if rng.random() < 0.25:
+            init['anames'] = names(rng, len(c['anames']))
+        if init:
+            c['init'] = init
+            c['via'] = rng.choice(['column', 'replace'])
+            c['warm'] = rng.sample(['json', 'hash', 'data', 'lattice', 'derive'], rng.randint(1, 4))
     return c
 
 
@@ -703,6 +851,8 @@ def generate(rng, tier):
         # small exhaustive-ish edge shapes first: 1x1 both values, a row / a column with no crosses
         for t in ([[False]], [[True]], [[False, False]], [[False], [False]], [[True, False], [False, False]]):
             c = ctx_case(rng, tier, fmt=fmt, stream='adm')
+            c.pop('init', None)
+            c['stream'] = 'adm-edge'
             c['table'] = t
             c['onames'] = c['onames'][:len(t)] if len(c['onames']) >= len(t) else names(rng, len(t))
             c['anames'] = c['anames'][:len(t[0])] if len(c['anames']) >= len(t[0]) else names(rng, len(t[0]))
@@ -710,15 +860,15 @@ def generate(rng, tier):
                 c['onames'] = names(rng, len(t), c['sep'])
                 c['anames'] = names(rng, len(t[0]), c['sep'])
             cases.append(c)
-    for _ in range(480 if quick else 7000):
+    for _ in range(400 if quick else 7000):
         cases.append(ctx_case(rng, tier))
     for _ in range(110 if quick else 1800):
         cases.append(mv_case(rng, tier))
-    for _ in range(150 if quick else 2400):
+    for _ in range(120 if quick else 2400):
         cases.append(fc_case(rng, tier))
     for _ in range(90 if quick else 1500):
         cases.append(pc_case(rng, tier))
-    for _ in range(100 if quick else 1500):
+    for _ in range(80 if quick else 1500):
         cases.append(lat_case(rng, tier))
     rng.shuffle(cases)      # spread the expensive lattice cases over the coqc shards
     return cases
@@ -731,7 +881,7 @@ def nontrivial(case):
     if k == 'ctx':
         t = case['table']
         flat = [v for r in t for v in r]
-        return len(t) >= 2 and len(t[0]) >= 2 and any(flat) and not all(flat) and case.get('stream') == 'adm'
+        return len(t) >= 2 and len(t[0]) >= 2 and any(flat) and not all(flat) and str(case.get('stream', '')).startswith(('adm', 'ws-sep'))
     if k == 'mv':
         return len(case['data']) >= 2 and len(case['ptypes']) >= 2
     if k in ('fc', 'pc'):
@@ -747,6 +897,7 @@ def stats(case):
         d['shape'] = case.get('shape', '')
     elif case['kind'] == 'mv':
         d['ptypes'] = '+'.join(sorted(set(case['ptypes'])))
+        d['mv_history'] = (case.get('via', '') + ':' + '+'.join(sorted(case['init']))) if case.get('init') else 'none'
     elif case['kind'] in ('fc', 'pc'):
         d['stream'] = case['kind'] + ':' + case.get('stream', '') + ':' + case.get('level', 'json')
     else:
@@ -757,6 +908,21 @@ def stats(case):
 def shrink(case):
     out = []
     k = case['kind']
+    if case.get('init'):        # first try without the history; structural shrinking only without it
+        c = dict(case)
+        c.pop('init')
+        out.append(c)
+        init = case['init']
+        for key in list(init):
+            if len(init) > 1:
+                c = dict(case)
+                c['init'] = {a: b for a, b in init.items() if a != key}
+                out.append(c)
+        if len(case.get('warm', [])) > 1:
+            c = dict(case)
+            c['warm'] = case['warm'][:-1]
+            out.append(c)
+        return out
     if k == 'ctx':
         t = case['table']
         if len(t) > 1:
